@@ -4,9 +4,9 @@ package main
 // configurations.
 
 import (
-	"go/types"
 	"fmt"
 	"go/constant"
+	"go/types"
 	"strings"
 
 	"golang.org/x/tools/go/ssa"
